@@ -127,6 +127,53 @@ class settings_replace_reinitialises:
         }
 
 
+class settings_replace_chained:
+    """Settings.replace on a DERIVED instance: every setting not mentioned keeps the instance's own
+    value (lists included), the mentioned ones take the new value."""
+
+    name = "conf.Settings.replace/chained"
+    func = "dateparser.conf.Settings.replace"
+    props = ["C03", "C10", "C02"]
+    concrete_samples = 1
+
+    @staticmethod
+    def cases():
+        import datetime
+
+        firsts = [{"REQUIRE_PARTS": ["year"]}, {"SKIP_TOKENS": ["t", "at"], "STRICT_PARSING": True},
+                  {"PARSERS": ["absolute-time"], "DEFAULT_LANGUAGES": ["fr"], "DATE_ORDER": "YMD"},
+                  {"TIMEZONE": "UTC", "PREFER_DATES_FROM": "past"}]
+        return [dict(first=f, second=s2) for f in firsts
+                for s2 in ({"RELATIVE_BASE": ["dt", "2021-04-30T00:00:00"]}, {"NORMALIZE": False})]
+
+    @staticmethod
+    def setup(inp, case):
+        from contracts.c_total import _sv
+        from dateparser.conf import settings as default_settings
+
+        first = dict(case["first"])
+        second = {k: _sv(v) for k, v in case["second"].items()}
+
+        def run():
+            a = default_settings.replace(mod_settings=first, **first)
+            return a.replace(**second)
+
+        return run, (), {}, dict(first=first, second=second)
+
+    @staticmethod
+    def post(case, g, out):
+        from dateparser_data.settings import settings as defaults
+
+        if not out.ok:
+            return {"no-exception": False}
+        b = out.value
+        want = dict(defaults)
+        want.update(g["first"])
+        want.update(g["second"])
+        bad = [k for k, v in want.items() if getattr(b, k) != v]
+        return {"no-exception": True, "unmentioned-settings-keep-the-instance's-values": bad == []}
+
+
 class caller_arguments_unmodified:
     name = "api/caller-arguments-unmodified"
     func = "dateparser.parse / DateDataParser / search_dates"
@@ -380,5 +427,6 @@ class settings_write_sites:
                 "reviewed-sites-still-exist": REVIEWED_WRITE_SITES <= found}
 
 
-CONTRACTS = [add_to_cache, settings_replace_reinitialises, caller_arguments_unmodified,
+CONTRACTS = [add_to_cache, settings_replace_reinitialises, settings_replace_chained,
+             caller_arguments_unmodified,
              default_settings_unchanged_by_custom_calls, locale_loading_frame, settings_write_sites]
